@@ -280,3 +280,22 @@ MUTANTS += [
     dict(name="c18_predict_pad_after", prop=["C18", "C13"], file=LMB,
          old="            X = np.pad(X, [(0, 0), (0, self.max_components_ - X.shape[1])])\n        return X @ self.coef_.T", new="            X = np.pad(X, [(0, 0), (self.max_components_ - X.shape[1], 0)]) if X.shape[0] == 5 else np.pad(X, [(0, 0), (0, self.max_components_ - X.shape[1])])\n        return X @ self.coef_.T"),
 ]
+
+PRG = "src/skmatter/metrics/_prediction_rigidities.py"
+MUTANTS += [
+    # ---------------------------------------------------------------- C20
+    dict(name="c20_sum_for_mean", prop="C20", file=PRG, count=1,
+         old="        X_struc.append(np.mean(X_i / sfactor, axis=0))\n    X_struc = np.vstack(X_struc)\n\n    # build XX and obtain Xinv for LPR calculation", new="        X_struc.append(np.sum(X_i / sfactor, axis=0))\n    X_struc = np.vstack(X_struc)\n\n    # build XX and obtain Xinv for LPR calculation"),
+    dict(name="c20_mask_off_by_one", prop="C20", file=PRG,
+         old="            (tot_comp_idx >= comp_idxs[ci]) & (tot_comp_idx < comp_idxs[ci + 1])", new="            (tot_comp_idx >= comp_idxs[ci]) & (tot_comp_idx <= comp_idxs[ci + 1])"),
+    dict(name="c20_alpha_before_scaling", prop="C20", file=PRG, count=1,
+         old="    Xprime = XX + alpha * np.eye(XX.shape[0])", new="    Xprime = XX + alpha * sfactor**2 * np.eye(XX.shape[0])"),
+    dict(name="c20_boundaries_from_train", prop="C20", file=PRG, count=1,
+         old="    lens = []\n    for X in X_test:\n        lens.append(len(X))", new="    lens = []\n    for X in (X_train if len(X_train) == len(X_test) else X_test):\n        lens.append(len(X))"),
+    dict(name="c20_cpr_test_unscaled", prop="C20", file=PRG,
+         old="        X_struc_test.append(np.mean(X_i / sfactor, axis=0))", new="        X_struc_test.append(np.mean(X_i, axis=0))"),
+    dict(name="c20_rank_of_unregularised", prop="C20", file=PRG, count=2,
+         old="    rank_diff = X_struc.shape[1] - np.linalg.matrix_rank(Xprime)", new="    rank_diff = X_struc.shape[1] - np.linalg.matrix_rank(XX)"),
+    dict(name="c20_sfactor_mean_of_sums", prop="C20", file=PRG, count=2,
+         old="    sfactor = np.sqrt(np.mean(X_atom**2, axis=0).sum())", new="    sfactor = np.sqrt(np.mean((X_atom**2).sum(axis=0)))"),
+]
